@@ -46,38 +46,40 @@ func (x *Exec) wfValDef() string {
 		le, ule = "bvsle", "bvule"
 	}
 	rng := func(sel string, lo, hi int64, unsigned bool) string {
-		op := le
 		if unsigned {
-			op = ule
-			return fmt.Sprintf("(%s (%s v) %s)", op, sel, I(hi))
+			return fmt.Sprintf("(%s (%s v) %s)", ule, sel, I(hi))
 		}
-		return fmt.Sprintf("(and (%s %s (%s v)) (%s (%s v) %s))", op, I(lo), sel, op, sel, I(hi))
+		return fmt.Sprintf("(and (%s %s (%s v)) (%s (%s v) %s))", le, I(lo), sel, le, sel, I(hi))
+	}
+	kEq := func(sel string, k int64) string { return fmt.Sprintf("(= (kindOfTid (%s v)) %s)", sel, I(k)) }
+	kIn := func(sel string, lo, hi int64) string {
+		return fmt.Sprintf("(and (%s %s (kindOfTid (%s v))) (%s (kindOfTid (%s v)) %s))", ule, I(lo), sel, ule, sel, I(hi))
 	}
 	var sb strings.Builder
 	sb.WriteString("(define-fun wfVal ((v Val)) Bool (and (or ((_ is vnil) v) (> (tagOf v) 0))\n")
-	sb.WriteString(" (=> ((_ is vbool) v) (= (kindOfTid (v-btid v)) 1))\n")
-	sb.WriteString(" (=> ((_ is vint) v) (and (<= 2 (kindOfTid (v-itid v)) 6)\n")
-	sb.WriteString("   (=> (= (kindOfTid (v-itid v)) 3) " + rng("v-i", -128, 127, false) + ")\n")
-	sb.WriteString("   (=> (= (kindOfTid (v-itid v)) 4) " + rng("v-i", -32768, 32767, false) + ")\n")
-	sb.WriteString("   (=> (= (kindOfTid (v-itid v)) 5) " + rng("v-i", -2147483648, 2147483647, false) + ")\n")
+	sb.WriteString(" (=> ((_ is vbool) v) " + kEq("v-btid", 1) + ")\n")
+	sb.WriteString(" (=> ((_ is vint) v) (and " + kIn("v-itid", 2, 6) + "\n")
+	sb.WriteString("   (=> " + kEq("v-itid", 3) + " " + rng("v-i", -128, 127, false) + ")\n")
+	sb.WriteString("   (=> " + kEq("v-itid", 4) + " " + rng("v-i", -32768, 32767, false) + ")\n")
+	sb.WriteString("   (=> " + kEq("v-itid", 5) + " " + rng("v-i", -2147483648, 2147483647, false) + ")\n")
 	if !x.bv {
 		sb.WriteString("   (and (<= (- 9223372036854775808) (v-i v)) (<= (v-i v) 9223372036854775807))\n")
 	}
 	sb.WriteString(" ))\n")
-	sb.WriteString(" (=> ((_ is vuint) v) (and (<= 7 (kindOfTid (v-utid v)) 12)\n")
-	sb.WriteString("   (=> (= (kindOfTid (v-utid v)) 8) " + rng("v-u", 0, 255, true) + ")\n")
-	sb.WriteString("   (=> (= (kindOfTid (v-utid v)) 9) " + rng("v-u", 0, 65535, true) + ")\n")
-	sb.WriteString("   (=> (= (kindOfTid (v-utid v)) 10) " + rng("v-u", 0, 4294967295, true) + ")\n")
+	sb.WriteString(" (=> ((_ is vuint) v) (and " + kIn("v-utid", 7, 12) + "\n")
+	sb.WriteString("   (=> " + kEq("v-utid", 8) + " " + rng("v-u", 0, 255, true) + ")\n")
+	sb.WriteString("   (=> " + kEq("v-utid", 9) + " " + rng("v-u", 0, 65535, true) + ")\n")
+	sb.WriteString("   (=> " + kEq("v-utid", 10) + " " + rng("v-u", 0, 4294967295, true) + ")\n")
 	if !x.bv {
 		sb.WriteString("   (and (<= 0 (v-u v)) (<= (v-u v) 18446744073709551615))\n")
 	}
 	sb.WriteString(" ))\n")
-	sb.WriteString(" (=> ((_ is vf64) v) (= (kindOfTid (v-ftid v)) 14))\n")
-	sb.WriteString(" (=> ((_ is vf32) v) (= (kindOfTid (v-gtid v)) 13))\n")
-	sb.WriteString(" (=> ((_ is vstr) v) (= (kindOfTid (v-stid v)) 24))\n")
-	sb.WriteString(" (=> ((_ is vptr) v) (and (>= (v-p v) 0) (or (= (kindOfTid (v-ptid v)) 18) (= (kindOfTid (v-ptid v)) 19) (= (kindOfTid (v-ptid v)) 21) (= (kindOfTid (v-ptid v)) 22) (= (kindOfTid (v-ptid v)) 26))))\n")
-	sb.WriteString(" (=> ((_ is vslice) v) (and (= (kindOfTid (v-ltid v)) 23) (>= (s-arr (v-l v)) 0) (" + le + " " + I(0) + " (s-len (v-l v))) (" + le + " (s-len (v-l v)) (s-cap (v-l v))) (" + le + " (s-cap (v-l v)) " + I(1<<40) + ")))\n")
-	sb.WriteString(" (=> ((_ is vother) v) (or (= (kindOfTid (v-otid v)) 17) (= (kindOfTid (v-otid v)) 25) (= (kindOfTid (v-otid v)) 15) (= (kindOfTid (v-otid v)) 16) (= (kindOfTid (v-otid v)) 20)))\n")
+	sb.WriteString(" (=> ((_ is vf64) v) " + kEq("v-ftid", 14) + ")\n")
+	sb.WriteString(" (=> ((_ is vf32) v) " + kEq("v-gtid", 13) + ")\n")
+	sb.WriteString(" (=> ((_ is vstr) v) " + kEq("v-stid", 24) + ")\n")
+	sb.WriteString(" (=> ((_ is vptr) v) (and (>= (v-p v) 0) (or " + kEq("v-ptid", 18) + " " + kEq("v-ptid", 19) + " " + kEq("v-ptid", 21) + " " + kEq("v-ptid", 22) + " " + kEq("v-ptid", 26) + ")))\n")
+	sb.WriteString(" (=> ((_ is vslice) v) (and " + kEq("v-ltid", 23) + " (>= (s-arr (v-l v)) 0) (" + le + " " + I(0) + " (s-len (v-l v))) (" + le + " (s-len (v-l v)) (s-cap (v-l v))) (" + le + " (s-cap (v-l v)) " + I(1<<40) + ")))\n")
+	sb.WriteString(" (=> ((_ is vother) v) (or " + kEq("v-otid", 17) + " " + kEq("v-otid", 25) + " " + kEq("v-otid", 15) + " " + kEq("v-otid", 16) + " " + kEq("v-otid", 20) + "))\n")
 	sb.WriteString("))\n")
 	return sb.String()
 }
@@ -86,9 +88,9 @@ func (x *Exec) wfValDef() string {
 func (x *Exec) globalAxioms() string {
 	var sb strings.Builder
 	for i, T := range x.prog.tidList {
-		fmt.Fprintf(&sb, "(assert (= (kindOfTid %d) %d))\n", i+1, kindOfType(T))
+		fmt.Fprintf(&sb, "(assert (= (kindOfTid %d) %s))\n", i+1, x.GoInt(int64(kindOfType(T))).Op)
 	}
-	sb.WriteString("(assert (= (kindOfTid 0) 0))\n")
+	sb.WriteString("(assert (= (kindOfTid 0) " + x.GoInt(0).Op + "))\n")
 	var names []string
 	for n := range x.ifaceUsed {
 		names = append(names, n)
@@ -348,7 +350,7 @@ func (x *Exec) SolveFiltered(opts SolveOpts) ([]*OblResult, bool) {
 	return results, vacuous
 }
 
-var solverSem = make(chan struct{}, 12)
+var solverSem = make(chan struct{}, 14)
 var emitMu sync.Mutex
 
 func (x *Exec) fallback(opts SolveOpts, safe string, idx int, o *Obligation, r *OblResult) {
